@@ -138,7 +138,8 @@ func (g *goFileGenerator) Import(path string) string {
 	// Find an import name that does not conflict with any known globals.
 	importedName := name
 	for i := 2; ; i++ {
-		if !g.isGlobalTaken(importedName) {
+		// A package cannot be imported under the name init.
+		if !g.isGlobalTaken(importedName) && importedName != "init" {
 			break
 		}
 		importedName = fmt.Sprintf("%s%d", name, i)
